@@ -117,6 +117,29 @@ func MutexKey(recv ssa.Value) (LockKey, ssa.Value, bool) {
 // lockOp classifies a call as a mutex operation.
 func lockOp(cc *ssa.CallCommon) (op string, key LockKey, ok bool) {
 	f := cc.StaticCallee()
+	if f == nil && !cc.IsInvoke() {
+		// a method value of a mutex called through a variable:
+		// `unlock := mu.Unlock; ...; unlock()`, also when the method value was
+		// returned by a helper (`kv, unlock := db.lockedKV()`)
+		v := Origin(cc.Value)
+		if inner, _ := ThroughHelper(v, func(g *ssa.Function) bool { return g.Blocks != nil }); inner != nil {
+			v = Origin(inner)
+		}
+		if mc, isMC := v.(*ssa.MakeClosure); isMC && len(mc.Bindings) == 1 {
+			if bf, isF := mc.Fn.(*ssa.Function); isF && strings.HasSuffix(bf.Name(), "$bound") && bf.Object() != nil {
+				if mo, isM := bf.Object().(*types.Func); isM && mo.Pkg() != nil && mo.Pkg().Path() == "sync" {
+					switch mo.Name() {
+					case "Lock", "Unlock", "RLock", "RUnlock":
+						if k, _, okK := MutexKey(mc.Bindings[0]); okK {
+							return mo.Name(), k, true
+						}
+						return mo.Name(), "", true
+					}
+				}
+			}
+		}
+		return "", "", false
+	}
 	if f == nil || f.Pkg == nil || f.Pkg.Pkg.Path() != "sync" {
 		return "", "", false
 	}
